@@ -5,6 +5,7 @@ package main
 import (
 	"fmt"
 	"math/rand"
+	"sort"
 	"strings"
 
 	"github.com/vektah/gqlparser/v2/ast"
@@ -54,6 +55,7 @@ func genOperation(r *rand.Rand, s *ast.Schema, o qOpts) (string, map[string]inte
 	return head + " " + body + "\n" + strings.Join(g.frags, "\n"), g.vars
 }
 
+// usableFields in name order: the merged schema's field order depends on the order in which polls completed
 func (g *qgen) usableFields(def *ast.Definition) []*ast.FieldDefinition {
 	var out []*ast.FieldDefinition
 	for _, f := range def.Fields {
@@ -62,6 +64,20 @@ func (g *qgen) usableFields(def *ast.Definition) []*ast.FieldDefinition {
 		}
 		out = append(out, f)
 	}
+	sort.Slice(out, func(i, j int) bool { return out[i].Name < out[j].Name })
+	return out
+}
+
+func sortedDefNames(ds []*ast.Definition) []string {
+	var out []string
+	seen := map[string]bool{}
+	for _, d := range ds {
+		if d != nil && !seen[d.Name] {
+			seen[d.Name] = true
+			out = append(out, d.Name)
+		}
+	}
+	sort.Strings(out)
 	return out
 }
 
@@ -288,20 +304,16 @@ func (g *qgen) selectionSetIn(def *ast.Definition, depth int, pathKeys []string,
 		if def.Kind == ast.Object {
 			conds = append(conds, def.Name)
 			if g.o.abstractFrag {
-				for _, i := range g.s.Implements[def.Name] {
-					conds = append(conds, i.Name)
-				}
+				conds = append(conds, sortedDefNames(g.s.Implements[def.Name])...)
 			}
 		} else {
-			for _, pt := range g.s.PossibleTypes[def.Name] {
-				conds = append(conds, pt.Name)
-			}
+			conds = append(conds, sortedDefNames(g.s.PossibleTypes[def.Name])...)
 			if g.o.abstractFrag {
 				conds = append(conds, def.Name)
-				for _, pt := range g.s.PossibleTypes[def.Name] {
-					for _, i := range g.s.Implements[pt.Name] {
-						if i.Name != def.Name {
-							conds = append(conds, i.Name)
+				for _, pt := range sortedDefNames(g.s.PossibleTypes[def.Name]) {
+					for _, i := range sortedDefNames(g.s.Implements[pt]) {
+						if i != def.Name {
+							conds = append(conds, i)
 						}
 					}
 				}
